@@ -1,4 +1,225 @@
 import FqModel.Proto
-/-! driver for C20 (stub — replaced by the property's own driver) -/
-open FqModel.Proto
-def main : IO Unit := run (fun _ _ => "BADOP driver-stub")
+import FqModel.CtxStack
+/-! driver for C20
+
+  `seq|interp [@note]* <op>;<op>;…` TAB `<obs>;<obs>;…`
+      op  = `p-` | `p<i>` | `f<i>` | `i` | `s`      (Push / cancel closure of the i-th push / interrupt / Stop)
+      obs = `<e>/<w>[!]` after the op: e[j] = 1 iff Err() ≠ nil of the j-th pushed context,
+            w[j] = 1 iff a Write through the CtxWriter bound to context j reached the sink,
+            `!` = the op panicked.
+      verdict: the property statement (the abstract specification `Spec`, evaluated independently of
+      the machine model; `w = ¬e`; a panic only for a second Stop), then model (`Variant.fixed`) = impl.
+  `lin [@note]* <events>` TAB `-`
+      a recorded two-thread history, see `linVerdict`.
+-/
+open FqModel FqModel.CtxStack FqModel.Proto
+
+def parseOp (w : String) : Option Op :=
+  if w == "i" then some .interrupt
+  else if w == "s" then some .stop
+  else if w == "p-" then some (.push none)
+  else match w.toList with
+    | 'p' :: ds => (String.ofList ds).toNat?.map (fun n => .push (some n))
+    | 'f' :: ds => (String.ofList ds).toNat?.map .finish
+    | _ => none
+
+def showOp : Op → String
+  | .push none => "p-"
+  | .push (some n) => s!"p{n}"
+  | .finish i => s!"f{i}"
+  | .interrupt => "i"
+  | .stop => "s"
+
+/-- parents and closure indices must refer to earlier pushes -/
+def opsValid : Nat → List Op → Bool
+  | _, [] => true
+  | n, .push none :: r => opsValid (n + 1) r
+  | n, .push (some p) :: r => p < n && opsValid (n + 1) r
+  | n, .finish i :: r => i < n && opsValid n r
+  | n, _ :: r => opsValid n r
+
+def parseBits (s : String) : Option (List Bool) :=
+  s.toList.mapM (fun c => if c == '1' then some true else if c == '0' then some false else none)
+
+def showBits (bs : List Bool) : String := String.ofList (bs.map (fun b => if b then '1' else '0'))
+
+structure ImplObs where
+  errs : List Bool
+  writes : List Bool
+  panicked : Bool
+
+def parseObs (s : String) : Option ImplObs :=
+  let (s, bang) := if s.endsWith "!" then ((s.dropEnd 1).toString, true) else (s, false)
+  match s.splitOn "/" with
+  | [e, w] => do
+    let e ← parseBits e
+    let w ← parseBits w
+    some ⟨e, w, bang⟩
+  | _ => none
+
+def showObs (o : Obs) : String :=
+  s!"{showBits o.errs}/{showBits (o.errs.map not)}{if o.doubleClose || o.rtPanic then "!" else ""}"
+
+def firstDiff (a b : List Bool) : Nat := ((a.zip b).takeWhile (fun (x, y) => x == y)).length
+
+/-- verdict for one sequence: walk the three traces side by side -/
+def seqVerdict (ops : List Op) (impl : List ImplObs) : String := Id.run do
+  let mut m := St.init
+  let mut old := St.init
+  let mut sp := Spec.init
+  let mut k := 0
+  let mut fail : Option String := none
+  let mut div : Option String := none
+  let mut oldAgrees := true
+  for (op, io) in ops.zip impl do
+    let spBefore := sp
+    let mBefore := m
+    m := step .fixed m op
+    old := step .oldPop old op
+    sp := sp.step op
+    let want := sp.ctxs.errs
+    let newMisuse := op == .stop && spBefore.stopped
+    if old.obs.errs != io.errs then oldAgrees := false
+    if fail.isNone then
+      if io.errs.length != want.length then
+        fail := some s!"op {k} ({showOp op}): {io.errs.length} contexts observed, {want.length} pushed"
+      else if io.errs != want then
+        let j := firstDiff io.errs want
+        let what := if io.errs.getD j false then "is cancelled but must be live" else "is live but must be cancelled"
+        fail := some s!"op {k} ({showOp op}): context {j} {what}: impl={showBits io.errs} spec={showBits want}"
+      else if io.writes != io.errs.map not then
+        let j := firstDiff io.writes (io.errs.map not)
+        let what := if io.writes.getD j false then "a write after cancellation reached the sink" else "a write on a live context was suppressed"
+        fail := some s!"op {k} ({showOp op}): CtxWriter of context {j}: {what}"
+      else if io.panicked != newMisuse then
+        fail := some (if io.panicked then s!"op {k} ({showOp op}): panic" else s!"op {k} ({showOp op}): second Stop did not panic (model: close of closed channel)")
+    if div.isNone then
+      let mo := m.obs
+      if mo.errs != io.errs || (mo.rtPanic || (op == .stop && mBefore.stopped)) != io.panicked then
+        div := some s!"op{k}:{showObs mo}"
+    k := k + 1
+  let d := match div with | some t => s!" ;DIVERGE model={t}" | none => ""
+  match fail with
+  | some f =>
+    let hint := if oldAgrees && div.isSome then " [impl agrees with the model of the pop closure before commit c3499288]" else ""
+    return s!"PROPFAIL {f}{hint}{d}"
+  | none =>
+    match div with
+    | some t => return s!"DIVERGE model={t}"
+    | none => return "OK"
+
+def stripNotes (ws : List String) : List String := ws.filter (fun w => !w.startsWith "@")
+
+def seqLine (opsText obs : String) : String :=
+  match (opsText.splitOn ";").filter (· ≠ "") |>.mapM parseOp with
+  | none => "BADOP op"
+  | some ops =>
+    if !opsValid 0 ops then "BADOP op refers to a push that has not happened"
+    else if obs.startsWith "unplanned:" then s!"PROPFAIL fq did not follow the harness plan: {obs.drop 10}"
+    else if obs.startsWith "invalid:" then s!"BADOP {obs}"
+    else match (obs.splitOn ";").mapM parseObs with
+      | none => s!"BADOP obs"
+      | some impl =>
+        if impl.length != ops.length then s!"BADOP {impl.length} observations for {ops.length} ops"
+        else seqVerdict ops impl
+
+/-! ### recorded two-thread histories (`lin`)
+
+  `<E events>|<T events>`, events `,`-separated `<op>:<t0>:<t1>[:<bits>]`. E = the evaluator's
+  operations in program order (`o` = atomic snapshot of Err()≠nil of all contexts), T = the
+  interrupts in order. The history is accepted iff there is a total order of all events that
+  (1) keeps both program orders, (2) puts `a` before `b` whenever `a` returned before `b` was
+  invoked (`a.t1 < b.t0`), and (3) run through `Spec.step` makes every snapshot equal to the
+  specification's `errs` at that point. Breadth-first over (events of E taken, events of T taken,
+  specification state). -/
+
+inductive LOp
+  | op (o : Op)
+  | snap (bits : List Bool)
+
+structure LEv where
+  op : LOp
+  t0 : Nat
+  t1 : Nat
+
+def parseLEv (w : String) : Option LEv :=
+  match w.splitOn ":" with
+  | [o, a, b] => do
+    let o ← parseOp o
+    let a ← a.toNat?
+    let b ← b.toNat?
+    some ⟨.op o, a, b⟩
+  | ["o", a, b, bits] => do
+    let a ← a.toNat?
+    let b ← b.toNat?
+    let bs ← if bits == "-" then some [] else parseBits bits
+    some ⟨.snap bs, a, b⟩
+  | _ => none
+
+def parseLEvs (s : String) : Option (List LEv) :=
+  if s.isEmpty then some [] else (s.splitOn ",").mapM parseLEv
+
+structure LState where
+  i : Nat
+  j : Nat
+  sp : Spec
+deriving DecidableEq
+
+def dedup (l : List LState) : List LState :=
+  l.foldl (fun acc x => if acc.contains x then acc else x :: acc) []
+
+def linExpand (es ts : Array LEv) (st : LState) : List LState :=
+  let a? := es[st.i]?
+  let b? := ts[st.j]?
+  let takeE : List LState :=
+    match a? with
+    | none => []
+    | some a =>
+      -- b must come first if it returned before a was invoked
+      if (match b? with | some b => decide (b.t1 < a.t0) | none => false) then []
+      else match a.op with
+        | .op o => [⟨st.i + 1, st.j, st.sp.step o⟩]
+        | .snap bits => if st.sp.ctxs.errs == bits then [⟨st.i + 1, st.j, st.sp⟩] else []
+  let takeT : List LState :=
+    match b? with
+    | none => []
+    | some b =>
+      if (match a? with | some a => decide (a.t1 < b.t0) | none => false) then []
+      else [⟨st.i, st.j + 1, st.sp.step .interrupt⟩]
+  takeE ++ takeT
+
+/-- returns `none` if linearizable, else the largest number of events any order could place -/
+def linCheck (es ts : Array LEv) : Option Nat := Id.run do
+  let total := es.size + ts.size
+  let mut frontier : List LState := [⟨0, 0, Spec.init⟩]
+  for k in [0:total] do
+    let next := dedup (frontier.flatMap (linExpand es ts))
+    if next.isEmpty then return some k
+    frontier := next
+  return none
+
+def linOpsValid (es : List LEv) : Bool :=
+  opsValid 0 (es.filterMap (fun e => match e.op with | .op o => some o | .snap _ => none))
+
+def linLine (t : String) : String :=
+  match t.splitOn "|" with
+  | [e, tt] =>
+    match parseLEvs e, parseLEvs tt with
+    | some es, some ts =>
+      if !linOpsValid es then "BADOP op refers to a push that has not happened"
+      else if ts.any (fun b => match b.op with | .op .interrupt => false | _ => true) then "BADOP T events must be interrupts"
+      else match linCheck es.toArray ts.toArray with
+        | none => "OK"
+        | some k =>
+          s!"PROPFAIL history is not linearizable against the specification: no admissible order places more than {k} of {es.length + ts.length} events"
+    | _, _ => "BADOP events"
+  | _ => "BADOP lin"
+
+def stepC20 (op obs : String) : String :=
+  match stripNotes (words op) with
+  | ["seq", t] => seqLine t obs
+  | ["interp", t] => seqLine t obs
+  | ["lin", t] => linLine t
+  | _ => "BADOP op"
+
+def main : IO Unit := run stepC20
